@@ -96,7 +96,11 @@ class DictDecoder:
         if not data:
             raise ParserError("Document is empty, can not detect type")
 
-        keys = data[0].keys() if isinstance(data, list) else data.keys()
+        sample = data[0] if isinstance(data, list) else data
+        if not isinstance(sample, dict):
+            raise ParserError("Document is not an object, can not detect type")
+
+        keys = sample.keys()
         clazz: type[T] | None = self.context.find_type_by_fields(set(keys))
 
         if clazz:
@@ -114,6 +118,11 @@ class DictDecoder:
         Returns:
             An instance of the class type representing the parsed content.
         """
+        if not isinstance(data, dict):
+            raise ParserError(
+                f"Failed to bind '{data}' to {clazz.__qualname__}, expected an object"
+            )
+
         if set(data.keys()) == self.context.class_type.derived_keys:
             return self.bind_derived_dataclass(data, clazz)
 
@@ -165,6 +174,7 @@ class DictDecoder:
         params = data["value"]
 
         generic = self.context.class_type.derived_element
+        self.verify_xsi_type(xsi_type)
 
         if clazz is generic:
             real_clazz: type[T] | None = None
@@ -241,6 +251,11 @@ class DictDecoder:
         """
         # xs:anyAttributes get it out of the way, it's the mapping exception!
         if var.is_attributes:
+            if not isinstance(value, dict):
+                raise ParserError(
+                    f"Failed to bind '{value}' "
+                    f"to {meta.clazz.__qualname__}.{var.name} field"
+                )
             return dict(value)
 
         # Repeating element, recursively bind the values
@@ -296,7 +311,13 @@ class DictDecoder:
             # field can support any object return the value as it is
             return value
 
-        value = converter.serialize(value)
+        try:
+            value = converter.serialize(value)
+        except TypeError:
+            raise ParserError(
+                f"Failed to bind '{value}' "
+                f"to {meta.clazz.__qualname__}.{var.name} field"
+            )
 
         # Convert value according to the field types
         return ParserUtils.parse_var(
@@ -328,7 +349,11 @@ class DictDecoder:
             # xs:anyType element, check all meta classes
             return self.bind_best_dataclass(data, meta.element_types)
 
-        assert var.clazz is not None
+        if var.clazz is None:
+            raise ParserError(
+                f"Failed to bind object with properties({list(data.keys())}) "
+                f"to {meta.clazz.__qualname__}.{var.name} field"
+            )
 
         subclasses = set(self.context.get_subclasses(var.clazz))
         if subclasses:
@@ -361,6 +386,8 @@ class DictDecoder:
         xsi_type = data["type"]
         params = data["value"]
 
+        self.verify_xsi_type(xsi_type)
+
         if var.elements:
             choice = var.find_choice(qname)
             if choice is None:
@@ -387,6 +414,12 @@ class DictDecoder:
 
         generic = self.context.class_type.derived_element
         return generic(qname=qname, value=value, type=xsi_type)
+
+    @classmethod
+    def verify_xsi_type(cls, xsi_type: Any) -> None:
+        """Verify the type of a derived element is a qualified name or empty."""
+        if xsi_type is not None and not isinstance(xsi_type, str):
+            raise ParserError(f"Invalid xsi:type `{xsi_type}`")
 
     @classmethod
     def find_var(
